@@ -452,6 +452,10 @@ def partial_name_stream(ctx: Ctx, stream: Stream, n: int):
         base = rng.choice(nodes)
         tail = ".".join(base.split(".")[-2:])
         frags = [rng.choice([base, "*" + tail, "*." + base.split(".")[-1], base.split(".")[0] + ".*", "*" + tail[1:] + "*", tail.replace(".", "?")])]
+        if rng.random() < 0.25:
+            # a * that is neither the first nor the last character is literal text (only ONE leading and ONE trailing * are markers)
+            first, last = base.split(".")[0], base.split(".")[-1]
+            frags = [rng.choice([first + ".*." + last, first + "*", "**" + last, "*" + first + "**", first + ".*" + last[-1:], "*" + first[:1] + "*" + last, "*"])]
         if rng.random() < 0.3:
             frags.append(rng.choice(["zz_no_such*", "*zz_none", rng.choice(nodes)]))
         sel = [[m for m in nodes if glob_spec(f, m)] for f in frags]
